@@ -293,3 +293,17 @@ pub fn gen_range_new(o: &mut Out, tier: &str, sd: u64, honest: bool) {
         }
     }
 }
+
+/// model-proved honest range proofs for all three widths (model prover -> Rust verifier)
+pub fn gen_c06_range(o: &mut Out, tier: &str, sd: u64) {
+    let mut r = Rng::new(sd, "c06r");
+    let th = tier == "thorough";
+    for w in [64usize, 128, 256] {
+        let all = splits(&mut r, w, th);
+        for bls in all.into_iter().take(if th { 20 } else { 2 }) {
+            let st = statement(&mut r, &bls);
+            let bits = format!("bits:{}", join(&st.amounts));
+            mprove(o, &mut r, "range.model-proved", "A", w, &st.ctx(), &bls, &bits, &st.opens, "-");
+        }
+    }
+}
